@@ -21,12 +21,14 @@ Proof. exact source_texts_current. Qed.
 Print Assumptions C12_source_texts_current.
 
 (* What the theorems below need from the code and read off it: retry bound 3, every request
-   method of the wrappers decorated with @tries, a usable fail value for get_color, the
-   capability check in Machine._color_matrix_light (D23), the guarded zone count in
-   MultizoneLight.__init__ (D24). *)
+   method of the wrappers AND both broadcasts of LifxLanApi decorated with @tries (D47), a
+   usable fail value for get_color, the capability check in Machine._color_matrix_light (D23),
+   the guarded zone count in MultizoneLight.__init__ (D24), the size guard in Machine._matrix /
+   _color_matrix_light (D48). *)
 Theorem C12_shapes_current :
   sh_max_tries current = 3%nat /\ (forall k, sh_wrapped current k = wrapped_all k) /\
-  sh_get_fail_ok current = true /\ sh_matrix_checked current = true /\ sh_mz_guarded current = true.
+  sh_get_fail_ok current = true /\ sh_matrix_checked current = true /\ sh_mz_guarded current = true /\
+  sh_size_guarded current = true.
 Proof. exact current_good. Qed.
 Print Assumptions C12_shapes_current.
 
@@ -48,24 +50,27 @@ Theorem C12_attempts_at_most_three : forall dir st cs,
 Proof. exact (run_attempts_bounded current current_good). Qed.
 Print Assumptions C12_attempts_at_most_three.
 
-(* faults_do_not_abort: for every directory, plan (whose broadcasts leave the host), state and
-   command list the run ends in Continue -- unless a row/column command addresses cells
-   outside the matrix it is staged on, or a matrix light whose size discovery never learnt
-   (matrix_ready = false for some command; see C12_silent_matrix_aborts).  No device outcome,
-   unknown name or capability mismatch is among the causes. *)
+(* faults_do_not_abort: for every directory (matrix lights of unknown size included), every
+   plan (broadcasts included), state and command list the run ends in Continue -- unless one
+   of the script's own row/column commands addresses cells outside the matrix it is staged on
+   (IndexError; matrix_ready = false for that command).  No device outcome, unknown name or
+   capability mismatch is among the causes; how the run ends does not depend on the plan at all. *)
 Theorem C12_faults_do_not_abort : forall dir st cs,
-  healthy (s_plan st) lan ->
   let '(_, res, _) := run current dir st cs in
-  res = Continue \/
-  ((res = Abort AbSize \/ res = Abort AbIndex) /\ exists c, In c cs /\ matrix_ready dir c = false).
+  res = Continue \/ (res = Abort AbIndex /\ exists c, In c cs /\ matrix_ready dir c = false).
 Proof. exact (run_survives current current_good). Qed.
 Print Assumptions C12_faults_do_not_abort.
 
 Theorem C12_scripts_keep_running : forall dir st cs,
-  healthy (s_plan st) lan -> Forall (fun c => matrix_ready dir c = true) cs ->
+  Forall (fun c => matrix_ready dir c = true) cs ->
   let '(_, res, _) := run current dir st cs in res = Continue.
 Proof. exact (run_continues current current_good). Qed.
 Print Assumptions C12_scripts_keep_running.
+
+Theorem C12_end_of_run_independent_of_faults : forall dir cs st1 st2,
+  snd (fst (run current dir st1 cs)) = snd (fst (run current dir st2 cs)).
+Proof. exact (run_result_independent current current_good). Qed.
+Print Assumptions C12_end_of_run_independent_of_faults.
 
 (* Commands aimed at unknown lights, groups or locations, zone commands to lights without
    zones, row/column commands to lights without a matrix, `get` from multi-colour lights:
@@ -76,17 +81,18 @@ Theorem C12_unknown_and_wrong_type_targets_change_nothing : forall dir cs st,
 Proof. exact (run_without_idle current current_good). Qed.
 Print Assumptions C12_unknown_and_wrong_type_targets_change_nothing.
 
-(* non_interference: every device the plan leaves alone (healthy) receives exactly the calls
-   of the run in which every request is answered and the commands aimed at unknown /
-   wrong-type targets are deleted; and both runs end the same way.  Excluded: runs in which a
-   `get` was abandoned or read a light at which an earlier request had been abandoned
+(* non_interference: both runs end the same way, and every device the plan leaves alone
+   (healthy; the LAN counts as a device for the broadcasts) receives exactly the calls of the
+   run in which every request is answered and the commands aimed at unknown / wrong-type
+   targets are deleted.  Excluded from the second part: runs in which a `get` was abandoned or
+   read a light at which an earlier request (or an earlier broadcast) had been abandoned
    (s_dirty); C12_get_exclusion_necessary shows that both exclusions are needed. *)
 Theorem C12_non_interference : forall dir cs (p : plan) regs colors,
-  healthy p lan -> Forall (fun c => addressable c = true) cs ->
+  Forall (fun c => addressable c = true) cs ->
   let '(st1, res1, t1) := run current dir (init_state p regs colors) cs in
   let '(st2, res2, t2) := run current dir (init_state no_faults regs colors)
                               (filter (fun c => negb (idle dir c)) cs) in
-  s_dirty st1 = false -> res1 = res2 /\ undisturbed (healthy p) t1 t2.
+  res1 = res2 /\ (s_dirty st1 = false -> undisturbed (healthy p) t1 t2).
 Proof. exact non_interference_current. Qed.
 Print Assumptions C12_non_interference.
 
@@ -133,19 +139,22 @@ Theorem C12_silent_multizone_refuted :
 Proof. exact silent_multizone_refuted. Qed.
 Print Assumptions C12_silent_multizone_refuted.
 
-(* FINDINGS on the current code (hypotheses of the theorems above that cannot be dropped):
-   a broadcast whose WorkflowException nothing retries or catches ends the script ... *)
-Theorem C12_broadcast_failure_aborts :
-  exists dir st cs, ~ healthy (s_plan st) lan /\ result_of (run current dir st cs) = Abort AbWorkflow.
-Proof. exact broadcast_failure_aborts_ex. Qed.
-Print Assumptions C12_broadcast_failure_aborts.
+(* ... and so are the two later ones: with the pinned LifxLanApi (broadcasts not retried, D47)
+   a broadcast that cannot be sent ends the script; with the pinned Machine._matrix /
+   _color_matrix_light (no size guard, D48) a row/column command aimed at a matrix light that
+   did not answer the size query while it was discovered ends the script. *)
+Theorem C12_broadcast_failure_refuted :
+  exists dir st cs, result_of (run pinned dir st cs) = Abort AbWorkflow /\
+                    result_of (run repaired dir st cs) = Continue.
+Proof. exact broadcast_failure_refuted. Qed.
+Print Assumptions C12_broadcast_failure_refuted.
 
-(* ... and so does a row/column command aimed at a matrix light that did not answer the size
-   query while it was discovered (discovery itself succeeds). *)
-Theorem C12_silent_matrix_aborts :
+Theorem C12_silent_matrix_refuted :
   exists net p cs,
-    let d := discover current [] (init_state p [] (fun _ => [])) net in
+    let d := discover repaired [] (init_state p [] (fun _ => [])) net in
+    let st := init_state no_faults [0; 0; 0; 0] (fun _ => [0; 0; 0; 0]) in
     discover_end_of d = Reported true /\
-    result_of (run current (directory_of d) (init_state no_faults [0; 0; 0; 0] (fun _ => [0; 0; 0; 0])) cs) = Abort AbSize.
-Proof. exact silent_matrix_aborts_ex. Qed.
-Print Assumptions C12_silent_matrix_aborts.
+    result_of (run pinned (directory_of d) st cs) = Abort AbSize /\
+    result_of (run repaired (directory_of d) st cs) = Continue.
+Proof. exact silent_matrix_refuted. Qed.
+Print Assumptions C12_silent_matrix_refuted.
